@@ -103,7 +103,7 @@ theorem sim_hashWith {a b : State} (h : Sim a b) (hm : MemSubDisk a) (sess : Opt
           exact ⟨rfl, ⟨rfl, rfl, hmem⟩, hm⟩
         | none =>
           simp only [hdv]
-          exact ⟨rfl, ⟨rfl, rfl, hmem⟩, hm⟩
+          exact ⟨trivial, ⟨rfl, rfl, hmem⟩, hm⟩
       | none =>
         have hb : bmem.lookup (s, ⟨cls, p, m⟩) = none := by
           cases hb : bmem.lookup (s, ⟨cls, p, m⟩) with
